@@ -99,6 +99,17 @@ class Module:
             for t, v in _assign_targets(node):
                 self.assigns.setdefault(t, []).append(v)
         self._index_funcs(self.tree.body, '', None, None)
+        # a class attribute bound to a module-level function (`_add = staticmethod(_update)`, `_add = _update`) is that function under the
+        # method's name (a method moved out of its class and kept as an alias)
+        for cname, cnode in list(self.classes.items()):
+            for st in cnode.body:
+                if isinstance(st, ast.Assign) and len(st.targets) == 1 and isinstance(st.targets[0], ast.Name):
+                    v = st.value
+                    if isinstance(v, ast.Call) and isinstance(v.func, ast.Name) and v.func.id in ('staticmethod', 'classmethod') and len(v.args) == 1 and not v.keywords:
+                        v = v.args[0]
+                    qn = f'{cname}.{st.targets[0].id}'
+                    if isinstance(v, ast.Name) and v.id in self.funcs and qn not in self.funcs:
+                        self.funcs[qn] = Func(self, qn, self.funcs[v.id].node, cnode, None)
 
     def _index_funcs(self, body, prefix, cls, outer) -> None:
         for node in body:
